@@ -490,6 +490,7 @@ def extract_grammar(
     g = Grammar(starting_symbol, considered_subtypes, expansion_depthing)
     g.register_type(starting_symbol)
     g.preprocess()
-    if any(["weight" in get_gengy(p) for p in considered_subtypes]) and not g.has_normalized_weights():
+    weighted = any(["weight" in get_gengy(p) for p in list(considered_subtypes) + list(g.ordered_nodes)])
+    if weighted and not g.has_normalized_weights():
         g.update_weights(1, g.get_weights())
     return g
